@@ -94,6 +94,7 @@ class BaseTimeSeries(BaseEstimator):
         :param sample_weight: weights None or array [n_obs]
         :return: *X*, *y*, *sample_weight*
         """
+        self.preprocessing_ = None
         check_ts_X_y(self, X, y)
 
         if self.preprocessing is not None:
